@@ -371,4 +371,152 @@ Proof.
   - exfalso. eapply scan_fuel_enough; [|exact Es]. lia.
 Qed.
 
+(* ------------------------------------------------------------------ (iii): an intact framed transaction is applied *)
+
+(** the event neither prunes nor replaces transaction [t]: it is not a checkpoint-commit record for an id >= t *)
+Definition harmless (t : Z) (e : ev) : bool :=
+  match e with
+  | EvTxn _ id dest st => negb ((dest =? DEST_CHECKPOINT) && (st =? TXN_COMMITCOMPLETE) && (t <=? id))
+  | _ => true
+  end.
+
+(** the key under which a TGDATA frame enters the duplicate test (a failed read counts as id 0) *)
+Definition ev_key (e : ev) : list Z :=
+  match e with EvTGBad _ => [0] | EvTG _ id _ => [id] | _ => [] end.
+Definition keys (evs : list ev) : list Z := flat_map ev_key evs.
+
+Lemma zmem_In k l : zmem k l = true <-> In k l.
+Proof.
+  unfold zmem. rewrite existsb_exists. split.
+  - intros (x & Hin & E). apply Z.eqb_eq in E. subst. exact Hin.
+  - intros H. exists k. split; [exact H|apply Z.eqb_refl].
+Qed.
+
+Lemma run_evs_no_abort : forall evs m seen,
+  NoDup (keys evs) -> (forall k, In k (keys evs) -> ~ In k seen) -> run_evs evs m seen <> SAbort.
+Proof.
+  induction evs as [|e r IH]; intros m seen Hnd Hs; cbn [run_evs]; [discriminate|].
+  unfold keys in *. cbn [flat_map] in *.
+  destruct e; cbn [ev_key app] in *; try discriminate; try (apply IH; assumption).
+  - destruct (zmem 0 seen) eqn:Ez.
+    + exfalso. apply zmem_In in Ez. eapply Hs; [left; reflexivity|exact Ez].
+    + inversion Hnd; subst. apply IH; [assumption|].
+      intros k Hk [Hk0|Hk0]; [subst; contradiction|]. eapply Hs; [right; exact Hk|exact Hk0].
+  - destruct (zmem id seen) eqn:Ez.
+    + exfalso. apply zmem_In in Ez. eapply Hs; [left; reflexivity|exact Ez].
+    + inversion Hnd; subst. apply IH; [assumption|].
+      intros k Hk [Hk0|Hk0]; [subst; contradiction|]. eapply Hs; [right; exact Hk|exact Hk0].
+Qed.
+
+Lemma In_mset_other t (b : list byte) k v (m : tgmap) : t <> k -> In (t, Some b) m -> In (t, Some b) (mset k v m).
+Proof.
+  intros Hne Hin. unfold mset. right. unfold mdel. apply filter_In. split; [exact Hin|].
+  cbn [fst]. apply negb_true_iff. apply Z.eqb_neq. exact Hne.
+Qed.
+
+Lemma run_evs_keeps : forall evs t b m seen m',
+  In (t, Some b) m -> t <> 0 -> forallb (harmless t) evs = true -> ~ In t (keys evs) ->
+  run_evs evs m seen = SDone m' -> In (t, Some b) m'.
+Proof.
+  induction evs as [|e r IH]; intros t b m seen m' Hin Ht Hh Hk H; cbn [run_evs] in H; [discriminate|].
+  cbn [forallb] in Hh. apply andb_prop in Hh as [He Hr].
+  unfold keys in Hk. cbn [flat_map] in Hk. rewrite in_app_iff in Hk.
+  assert (Hkr : ~ In t (keys r)) by (intros X; apply Hk; right; exact X).
+  destruct e.
+  - inversion H; subst. destruct tg0; [|exact Hin]. apply In_mset_other; assumption.
+  - eapply IH; eassumption.
+  - eapply IH; [| exact Ht | exact Hr | exact Hkr | exact H].
+    cbn [harmless] in He.
+    destruct ((dest =? DEST_CHECKPOINT) && (status =? TXN_COMMITCOMPLETE)) eqn:Ec; cbn [andb] in *.
+    + destruct (mmem id m); [|exact Hin].
+      apply negb_true_iff in He. apply Z.leb_gt in He.
+      unfold mprune. apply filter_In. split; [exact Hin|]. cbn [fst]. apply Z.ltb_lt. exact He.
+    + exact Hin.
+  - destruct (zmem 0 seen); [discriminate|].
+    eapply IH; [| exact Ht | exact Hr | exact Hkr | exact H]. apply In_mset_other; assumption.
+  - destruct (zmem id seen); [discriminate|].
+    eapply IH; [| exact Ht | exact Hr | exact Hkr | exact H].
+    apply In_mset_other; [|exact Hin]. intros ->. apply Hk. left. cbn. left. reflexivity.
+  - discriminate.
+Qed.
+
+(** every event before the last one of an event list continues the loop *)
+Definition continuing (e : ev) : Prop := ev_next e <> None.
+
+Lemma events_prefix_continuing : forall fuel bs pos pre e post,
+  events fuel bs pos = pre ++ e :: post -> Forall continuing pre.
+Proof.
+  induction fuel as [|f IH]; intros bs pos pre e post H; cbn [events] in H.
+  - destruct pre; discriminate.
+  - destruct pre as [|x pre]; [constructor|].
+    cbn [app] in H. inversion H as [[Hx Hrest]]. clear H.
+    destruct (ev_next (next_msg bs pos)) as [p'|] eqn:En.
+    + constructor; [unfold continuing; rewrite En; discriminate|]. eapply IH. exact Hrest.
+    + destruct pre; discriminate.
+Qed.
+
+Lemma run_evs_through : forall pre rest m seen m',
+  Forall continuing pre -> run_evs (pre ++ rest) m seen = SDone m' ->
+  exists m1 seen1, run_evs rest m1 seen1 = SDone m'.
+Proof.
+  induction pre as [|e r IH]; intros rest m seen m' Hc H; [exists m, seen; exact H|].
+  inversion Hc as [|? ? He Hr]; subst. cbn [app run_evs] in H.
+  destruct e; unfold continuing in He; cbn [ev_next] in He; try congruence.
+  - eapply IH; eassumption.
+  - eapply IH; eassumption.
+  - destruct (zmem 0 seen); [discriminate|]. eapply IH; eassumption.
+  - destruct (zmem id seen); [discriminate|]. eapply IH; eassumption.
+Qed.
+
+Lemma apply_sched_all : forall s,
+  (forall k b, In (k, b) s -> exists wts, ParseTGData b root = Ok (k, wts) /\ (wts = [] \/ apply_ok k wts = true)) ->
+  forall k b, In (k, b) s -> exists n, In (k, n) (r_applied (apply_sched s)).
+Proof.
+  induction s as [|[k0 b0] r IH]; intros Hall k b Hin; [contradiction|].
+  cbn [WalScan.apply_sched].
+  destruct (Hall k0 b0 (or_introl eq_refl)) as (wts & Hp & Hok). rewrite Hp.
+  assert (E : ((length wts =? 0)%nat || apply_ok k0 wts) = true).
+  { destruct Hok as [->|Hok]; [reflexivity|]. rewrite Hok. apply orb_true_r. }
+  rewrite E. cbn [r_applied].
+  destruct Hin as [Hin|Hin].
+  - inversion Hin; subst. exists (length wts). left. reflexivity.
+  - destruct (IH (fun k' b' H' => Hall k' b' (or_intror H')) k b Hin) as (n & Hn). exists n. right. exact Hn.
+Qed.
+
+(** C06 (iii), frame form: a transaction framed as an intact record, with a non-zero id, not followed by a
+    checkpoint-commit frame for an id >= it, is applied — provided the file has no panic frame, no TGDATA
+    key occurs twice (a failed TGDATA read counts as key 0), and every intact record of the file parses
+    and replays without error *)
+Theorem intact_framed_applied : forall bs pre p t body post,
+  frames bs = pre ++ EvTG p t body :: post ->
+  t <> 0 ->
+  no_panic_frames bs = true ->
+  NoDup (keys (frames bs)) ->
+  forallb (harmless t) post = true ->
+  (forall q id b, intact_at bs q id b ->
+     exists wts, ParseTGData b root = Ok (id, wts) /\ (wts = [] \/ apply_ok id wts = true)) ->
+  exists n, In (t, n) (r_applied (replay_bytes bs)).
+Proof.
+  intros bs pre p t body post Hfr Ht Hnp Hnd Hh Hall.
+  unfold WalScan.replay_bytes.
+  destruct (scan (S (length bs)) bs 0 [] []) as [m'| |c|] eqn:Es.
+  - rewrite scan_run_evs in Es. fold (frames bs) in Es.
+    assert (Hmf : map_from (frames bs) m').
+    { apply (run_evs_map_from (frames bs) (frames bs) [] [] m'); [intros e He; exact He | intros ? ? [] | exact Es]. }
+    assert (Hin : In (t, Some body) m').
+    { pose proof (events_prefix_continuing _ _ _ _ _ _ Hfr) as Hc.
+      rewrite Hfr in Es. apply run_evs_through in Es as (m1 & seen1 & Es); [|exact Hc].
+      cbn [run_evs] in Es. destruct (zmem t seen1); [discriminate|].
+      apply (run_evs_keeps post t body (mset t (Some body) m1) (t :: seen1) m'); [left; reflexivity | exact Ht | exact Hh | | exact Es].
+      rewrite Hfr in Hnd. unfold keys in Hnd. rewrite flat_map_app in Hnd. cbn [flat_map ev_key app] in Hnd.
+      apply NoDup_remove_2 in Hnd. intros X. apply Hnd. apply in_or_app. right. exact X. }
+    apply (apply_sched_all (schedule m')) with (b := body).
+    + intros k b Hkb. apply (proj1 (schedule_In _ _ _)) in Hkb.
+      apply Hmf in Hkb as (p' & Hev). apply events_intact in Hev as (q & Hi). eapply Hall. exact Hi.
+    + apply (proj2 (schedule_In _ _ _)). exact Hin.
+  - exfalso. rewrite scan_run_evs in Es. apply (run_evs_no_abort (frames bs) [] []); [exact Hnd | intros k _ [] | exact Es].
+  - exfalso. rewrite scan_run_evs in Es. eapply run_evs_no_panic; [exact Hnp|exact Es].
+  - exfalso. eapply scan_fuel_enough; [|exact Es]. lia.
+Qed.
+
 End Facts.
